@@ -23,9 +23,18 @@ MCInit == IF Acts = {"FnBasis"} THEN {[a |-> KvObj(U)] : U \in AllKV}
 \* (Pts/Wts are cut to the right length below; TLC needs the set before U is known)
 
 CutTo(s, n) == [i \in 1..n |-> s[i]]
+(* Greville abscissae: with them as control points the spline is the identity u |-> u, which lives on every   *)
+(* knot vector of degree >= 1.  "homlin" curves have w_i P_i = Greville_i with generic weights: the numerator  *)
+(* spline is reducible everywhere, the weight function is not (numerator and denominator disagree).            *)
+Greville(U, i) == LET p == Deg(U) IN Div(SumSeq([k \in 1..p |-> K(U, i + k - 1)]), R(p))     \* i = 1..npts, p >= 1
+HomLin(U, W) == Curve(U, [i \in 1..Npts(U) |-> Div(Greville(U, i), W[i])], W)
 MCInit2 ==
   IF Acts = {"FnBasis"} THEN {[a |-> KvObj(U)] : U \in AllKV}
   ELSE UNION {{[a |-> CvObj(Curve(U, P, W)), b |-> NoObj] : P \in Pts(Npts(U)), W \in Wts(Npts(U))} : U \in AllKV}
+       \cup (IF "homlin" \in PtKinds
+             THEN UNION {{[a |-> CvObj(HomLin(U, W)), b |-> NoObj] : W \in {WGen1(Npts(U)), WGen2(Npts(U))}}
+                            : U \in {V \in AllKV : Deg(V) >= 1}}
+             ELSE {})
 
 NodePool(U) == KnotSet(U) \cup Midpoints(U) \cup Outside(U) \cup {x \in ExtraNodes : Valid(U, x)}
 EvalGrid(U) == ParamGrid(U, Deg(U) + 1)
@@ -129,7 +138,17 @@ MCArgs(name, h, dep) ==
              m \in {"closed-newton-cotes", "open-newton-cotes", "chebyshev", "gauss-legendre", "default"},
              n \in 2..4, k \in 0..3} \ {x \in [obj : {"a"}, k : 0..3, method : {"closed-newton-cotes", "open-newton-cotes", "chebyshev", "gauss-legendre", "default"}, nnodes : 2..4] :
                                             (x.k >= x.nnodes /\ x.method # "gauss-legendre") \/ (x.method = "default" /\ x.nnodes # 2)}
-    [] name = "CvIntegrate" -> IF h["a"].W = <<>> THEN {[obj |-> "a"]} ELSE {}
+    [] name = "CvIntegrate" ->
+         IF h["a"].W = <<>>
+         THEN {[obj |-> "a", method |-> m, nnodes |-> n] :
+                  m \in {"default", "closed-newton-cotes", "open-newton-cotes", "chebyshev", "gauss-legendre"},
+                  n \in {0, Deg(U) + 1, Deg(U) + 2}}
+              \ {x \in [obj : {"a"}, method : {"closed-newton-cotes"}, nnodes : {0, Deg(U) + 1, Deg(U) + 2}] :
+                    \* a closed rule needs two nodes, and it samples the right-continuous value at the right end of
+                    \* a span, which is the next piece's value at a discontinuity: outside the property
+                    \/ (x.nnodes = 1 \/ (x.nnodes = 0 /\ Deg(U) = 0))
+                    \/ \E k \in KnotSet(U) \ {Umin(U), Umax(U)} : MultOf(U, k) = Deg(U) + 1}
+         ELSE {}
     [] name = "CvFitCurve" ->
          LET V == U IN
          {[obj |-> "a", other |-> C, nodes |-> nd] :
